@@ -77,6 +77,7 @@ type controller struct {
 	errNext    map[int]bool // starter p: the next isStarted() is the one after a failed Accept/read
 	inHand     map[int]bool
 	expired    map[int]bool
+	expires    map[int]bool // shutdown callers whose ctx expires somewhere in the plan
 	launched   map[string]bool
 	pmap, hmap map[int]int // specification process id -> harness call number
 	lockHeld   bool
@@ -322,7 +323,13 @@ func (c *controller) perform(l label) (fiat []label, ok bool) {
 		if c.w.nH+1 != a(0) {
 			return nil, false
 		}
-		c.w.Shutdown()
+		// a caller whose ctx never expires in this behaviour may as well have none: every other such call
+		// goes through Shutdown(), the entry point without a context (a function of the plan alone)
+		if !c.expires[a(0)] && (len(c.plan)+a(0))%2 == 0 {
+			c.w.ShutdownPlain()
+		} else {
+			c.w.Shutdown()
+		}
 		c.quiet()
 		return nil, rel(h(0), "", "gate.shutdown.enter")
 	case "SNotify":
@@ -535,6 +542,12 @@ func (c *controller) compare(step int, l label, p *proj, plan []planLine) {
 // run forces the plan, then lets everything finish.
 func (c *controller) run(plan []planLine) {
 	c.plan = plan
+	c.expires = map[int]bool{}
+	for _, st := range plan {
+		if l := mkLabel(st.Act); l.Name == "ShCtx" && len(l.Args) > 0 {
+			c.expires[l.Args[0]] = true
+		}
+	}
 	for i, st := range plan {
 		l := mkLabel(st.Act)
 		if l.Name == "" {
